@@ -70,6 +70,10 @@ static int blk(const void * p)
  * must not yield an owner of the memory being destroyed (event 9 otherwise); the probe has no net effect on
  * any counter in a correct library (a successful lock on some OTHER live allocation is undone at once). */
 static int cbprobe = -1;
+/* header `cbwreset w`: the clear callback resets weak pointer w ("shared from this": an object that keeps a weak
+ * reference, typically to its own allocation, and drops it when it is destroyed).  Not represented in the Coq
+ * model (its callback is a logger): such cases are judged by the reference oracle and the sanitizers only. */
+static int cbwreset = -1;
 static cstl_shared_ptr_t probe_sp;
 static void clr_log(void * p, void * priv)
 {
@@ -79,6 +83,7 @@ static void clr_log(void * p, void * priv)
         if (cstl_shared_ptr_get(&probe_sp) == p) HA_EV(" ; 9 %d", blk(p));
         cstl_shared_ptr_reset(&probe_sp);
     }
+    if (cbwreset >= 0) cstl_weak_ptr_reset(&pool[cbwreset].s);
 }
 
 static int ext_index(const void * p)
@@ -211,7 +216,7 @@ static void run_case(const struct h_case * c)
     int i, k, started = 0;
 
     ha_reset();
-    nobj = 0; next_ = 0; cbprobe = -1; constapi = 0; cstl_shared_ptr_init(&probe_sp);
+    nobj = 0; next_ = 0; cbprobe = -1; cbwreset = -1; constapi = 0; cstl_shared_ptr_init(&probe_sp);
     for (i = 0; i < c->nlines; i++) {
         const struct h_line * l = &c->lines[i];
         int nw = l->nw, a, b, marks[H_MAXW], nmarks = 0;
@@ -238,6 +243,7 @@ static void run_case(const struct h_case * c)
         }
         if (h_weq(l, 0, "failfrom")) { ha_fail_from = (long)h_int(l, 1); continue; }
         if (h_weq(l, 0, "cbprobe")) { cbprobe = (int)h_int(l, 1); continue; }
+        if (h_weq(l, 0, "cbwreset")) { cbwreset = (int)h_int(l, 1); continue; }
         if (h_weq(l, 0, "constapi")) { constapi = (int)h_int(l, 1); continue; }
         if (!started) {
             for (k = 0; k < nobj; k++) obj_init(k);
